@@ -122,6 +122,7 @@ type FnCtx struct {
 	usedInlined map[string]bool
 	havocCalls map[string]int
 	watch    map[string]bool
+	lastretTy map[string]types.Type // result types of watched callees, learnt in the discovery pass
 	retCountTotal int
 	sawConcurrency bool
 	goSeen   bool
@@ -129,6 +130,8 @@ type FnCtx struct {
 	sortWitness [][2]string
 	entryReach string
 	localCells []string // alloc terms of local variables that never escape
+	condCells  []condCell // local variables that escape only at known instructions
+	reachMemo  map[*ssa.BasicBlock]map[*ssa.BasicBlock]bool
 	allocOf    map[string]ssa.Value // alloc term -> Alloc instruction (this pass)
 	cellWrites map[*ssa.BasicBlock]map[ssa.Value]bool // discovery: local cells written per block
 	outerBlock *ssa.BasicBlock // caller block while executing inlined callee bodies
